@@ -138,8 +138,9 @@ func (kj *keyJudge) finish() {
 		c.Fail(kj.gen+"sigma-window", "%s: empirical σ %.4f of %d pooled row-error coefficients outside [σ/2,2σ] of the nominal %.4f", kj.cfg, kj.pool.Std(), kj.pool.N, se)
 		return
 	}
-	if kj.rows >= 2 && len(kj.c1s) < (kj.rows+1)/2 {
-		c.Fail(kj.gen+"mask-repeats", "%s: only %d distinct uniform components in %d rows", kj.cfg, len(kj.c1s), kj.rows)
+	// uniform over QP ≥ 2^30 with N ≥ 16 coefficients: two equal masks have probability ≤ 2^-480
+	if len(kj.c1s) != kj.rows {
+		c.Fail(kj.gen+"mask-repeats", "%s: only %d distinct uniform components in %d rows (over all generations, in-place regeneration included)", kj.cfg, len(kj.c1s), kj.rows)
 	}
 }
 
@@ -203,8 +204,15 @@ func keyScenario(rt ring.Type, logN int, ch rk.Chain, np int, kind string, bound
 			c.Cover("known-class", sigTernaryXeKey)
 		}
 		evkp := rlwe.EvaluationKeyParameters{LevelQ: &levelQ, LevelP: &levelP, BaseTwoDecomposition: &base2, Compressed: compressed}
-		// several keys until the pool is large enough for the lower-bound clauses
-		for rep := 0; kj.pool.N < keyPoolMin && rep < 32; rep++ {
+		// Several keys (at least two) until the pool is large enough for the lower-bound clauses. The
+		// first comes from the Gen*KeyNew constructor; the following ones are generated IN PLACE into one
+		// and the same key object (GenRelinearizationKey / GenGaloisKey / GenEvaluationKey), as an
+		// application that rotates its keys does. A regenerated key must carry fresh masks: all uniform
+		// components of all rows of all generations must be pairwise distinct (finish()).
+		var rlkObj *rlwe.RelinearizationKey
+		var gkObj *rlwe.GaloisKey
+		var evkObj *rlwe.EvaluationKey
+		for rep := 0; (rep < 2 || kj.pool.N < keyPoolMin) && rep < 32; rep++ {
 			uni.Seed(c, name, cfg, rep)
 			kgen := rlwe.NewKeyGenerator(p)
 			sk := kgen.GenSecretKeyNew()
@@ -215,30 +223,47 @@ func keyScenario(rt ring.Type, logN int, ch rk.Chain, np int, kind string, bound
 			err, pan := uni.Try(func() error {
 				switch kind {
 				case "rlk":
-					k := kgen.GenRelinearizationKeyNew(sk, evkp)
-					evk, sIn, sOut = &k.EvaluationKey, rk.Mul(rt, s, s), s
+					if rep == 0 {
+						rlkObj = kgen.GenRelinearizationKeyNew(sk, evkp)
+					} else {
+						kgen.GenRelinearizationKey(sk, rlkObj)
+					}
+					evk, sIn, sOut = &rlkObj.EvaluationKey, rk.Mul(rt, s, s), s
 				case "gk":
-					k := kgen.GenGaloisKeyNew(galEl, sk, evkp)
-					if k.GaloisElement != galEl || k.NthRoot != p.RingQ().NthRoot() {
-						return fmt.Errorf("GaloisKey fields: GaloisElement=%d NthRoot=%d", k.GaloisElement, k.NthRoot)
+					if rep == 0 {
+						gkObj = kgen.GenGaloisKeyNew(galEl, sk, evkp)
+					} else {
+						kgen.GenGaloisKey(galEl, sk, gkObj)
+					}
+					if gkObj.GaloisElement != galEl || gkObj.NthRoot != p.RingQ().NthRoot() {
+						return fmt.Errorf("GaloisKey fields: GaloisElement=%d NthRoot=%d", gkObj.GaloisElement, gkObj.NthRoot)
 					}
 					// the key re-encrypts from s to π_(g^-1)(s); the evaluator applies π_g afterwards
-					evk, sIn, sOut = &k.EvaluationKey, s, rk.Auto(rt, s, modInverse(galEl, p.RingQ().NthRoot()))
+					evk, sIn, sOut = &gkObj.EvaluationKey, s, rk.Auto(rt, s, modInverse(galEl, p.RingQ().NthRoot()))
 				case "evk":
 					sk2 := kgen.GenSecretKeyNew()
-					evk, sIn, sOut = kgen.GenEvaluationKeyNew(sk, sk2, evkp), s, rk.Secret(p, sk2)
+					if rep == 0 {
+						evkObj = kgen.GenEvaluationKeyNew(sk, sk2, evkp)
+					} else {
+						kgen.GenEvaluationKey(sk, sk2, evkObj)
+					}
+					evk, sIn, sOut = evkObj, s, rk.Secret(p, sk2)
 				}
 				if compressed {
 					if !evk.IsCompressed() || evk.Seed == nil || evk.Degree() != 0 {
 						return fmt.Errorf("compressed key: IsCompressed=%v Seed=%v Degree=%d", evk.IsCompressed(), evk.Seed != nil, evk.Degree())
 					}
+					// expand a deep copy: the key object itself stays compressed for the next generation
+					seed := *evk.Seed
+					cp := &rlwe.EvaluationKey{GadgetCiphertext: *evk.GadgetCiphertext.CopyNew(), Seed: &seed}
 					var buf *rlwe.GadgetCiphertext
 					if rep%2 == 1 {
 						buf = rlwe.NewGadgetCiphertext(p, 0, levelQ, levelP, base2)
 					}
-					if err := evk.Expand(p, buf); err != nil {
+					if err := cp.Expand(p, buf); err != nil {
 						return fmt.Errorf("Expand: %w", err)
 					}
+					evk = cp
 				}
 				gct = &evk.GadgetCiphertext
 				return nil
